@@ -626,6 +626,8 @@ func checkC16(c *Ctx) {
 	c.checkReadTransportWrite("O8 read-transport")
 	c.checkDecodedPayloadOwned("O8 decoded-payload-owned")
 	c.checkDecodedSizeGuards("O8 size-guards")
+	// what was sized is what is emitted: pooled tag slices never overlap (shared with C12 O7)
+	c.checkPooledSlicesDisjoint("O3 pooled-slices-disjoint")
 }
 
 // checkM3ClientSend: sendEmitMetricBatchV2 = WriteMessageBegin(name, ONEWAY, seq) -> args.Write ->
